@@ -71,6 +71,8 @@ def attacks(ctx, blobA, blobB, full):
             m[b // 8] ^= 1 << (b % 8)
             yield 'flip', name, bytes(m)
     step = 1 if full else (7 if ctx.quick else 3)
+    if len(blobA) > 20000:
+        step = len(blobA) // 60                      # large messages: a spread of cut points
     for n in range(0, len(blobA), step):
         yield 'truncate', 'at %d' % n, blobA[:n]
     for extra in (b'\x00', b'\xd3\x14' + bytes(20), blobA[-22:]):
@@ -88,7 +90,7 @@ def attacks(ctx, blobA, blobB, full):
                     m = bytearray(bodyA)
                     m[1 + i * bs:1 + (i + 1) * bs], m[1 + j * bs:1 + (j + 1) * bs] = bodyA[1 + j * bs:1 + (j + 1) * bs], bodyA[1 + i * bs:1 + (i + 1) * bs]
                     yield 'swap-blocks', '%d<->%d' % (i, j), esks + build.pkt(18, bytes(m))
-        for at in range(1, min(len(bodyA), len(bodyB)), bs if not full else 4):
+        for at in range(1, min(len(bodyA), len(bodyB)), (bs if not full else 4) if len(bodyA) <= 20000 else (len(bodyA) // 150) // bs * bs + bs):
             yield 'splice', 'A[:%d]+B' % at, esks + build.pkt(18, bodyA[:at] + bodyB[at:])
             yield 'splice', 'B[:%d]+A' % at, esks + build.pkt(18, bodyB[:at] + bodyA[at:])
         yield 'replace-mdc', 'mdc of B', esks + build.pkt(18, bodyA[:-22] + bodyB[-22:])
@@ -113,6 +115,10 @@ def attacks(ctx, blobA, blobB, full):
         yield 'insert', 'container of B before container of A', esks + cB[2] + cA[2]
         yield 'insert', 'container of A before container of B with ESKs of A', esks + cA[2] + cB[2]
         yield 'insert', 'compressed forged literal first', build.pkt(8, b'\x00' + forged) + blobA
+        # the encrypted container replaced by an unencrypted literal packet, the session-key packets kept (what is left over when a
+        # damaged session-key packet swallows the container): still presented as an encrypted message, must not yield the literal
+        yield 'replace-container', 'by a literal packet', esks + forged
+        yield 'replace-container', 'by a compressed literal packet', esks + build.pkt(8, b'\x00' + forged)
 
 
 def run(ctx):
@@ -136,6 +142,8 @@ def run(ctx):
         for rk in ('cv25519', 'rsa', 'ecdh256'):
             for size in ((0, 31) if ctx.quick else (0, 1, 15, 16, 200)):
                 plan.append((cipher, rk, size))
+    # one message whose plaintext is longer than 64 KiB (the MDC covers all of it; most tampering positions lie beyond 64 KiB)
+    plan.append((ciphers[0], 'cv25519', 70000))
     for n, (cipher, rk, size) in enumerate(plan):
         pub = pgpy.PGPKey.from_blob(bytes(W.own[rk].pubkey))[0]
         sk = cipher.gen_key()
